@@ -744,10 +744,10 @@ def run(ctx):
     R = rig()
     ctx.interleavings = set()
     quick = ctx.quick
-    for _ in range(ctx.share(600 if quick else 5000)):
+    for _ in range(ctx.share(600 if quick else 20000)):
         run_seq(ctx, gen_script(rng, R))
         ctx.count("sequential_histories")
-    for _ in range(ctx.share(160 if quick else 1200)):
+    for _ in range(ctx.share(160 if quick else 5000)):
         sizes = [rng.choice([5, 30, 500, 1020, 1023, 1024, 1026, 1500, 2046, 2049, 3000, 3072, 3074, 4000])
                  for _ in range(rng.randint(1, 3))]
         run_names(ctx, {"kind": "names", "mode": rng.choice(["curtsies", "curses", "bytes"]),
@@ -756,15 +756,15 @@ def run(ctx):
     yields = inject.Yields(0, p=0.08)
     yields.install()
     try:
-        for i in range(ctx.share(120 if quick else 1500)):
+        for i in range(ctx.share(120 if quick else 5000)):
             case = gen_concurrent(rng, R)
             run_conc(ctx, case, yields if (yields and i % 2 == 0) else None)
             ctx.count("concurrent_histories")
-        for i in range(ctx.share(8 if quick else 200)):
+        for i in range(ctx.share(8 if quick else 600)):
             run_pingpong(ctx, {"kind": "pingpong", "rounds": 400, "seed": rng.randrange(1 << 30),
                                "slow_ctor": rng.choice([0.0, 0.0003, 0.001])},
                          yields if i % 2 else None)
-        for i in range(ctx.share(8 if quick else 200)):
+        for i in range(ctx.share(8 if quick else 600)):
             run_pairs(ctx, {"kind": "pairs", "rounds": 150, "ctor_s": rng.choice([0.0002, 0.001, 0.003]), "n": i})
     finally:
         if yields:
